@@ -993,3 +993,459 @@ Proof.
         vm_compute in Hsig; injection Hsig as <-; cbn [fs_ret];
         sig1 Hok HF; load_s; apply emit_none_bpost; auto. }
 Qed.
+
+Lemma builtin_none name e vals : builtin name e vals = None -> mem_str name s1_builtins = false.
+Proof.
+  unfold builtin. intros Hb.
+  repeat match type of Hb with
+  | (if name_is ?n ?lit then Some _ else _) = None =>
+      let E := fresh "E" in destruct (name_is n lit) eqn:E; [discriminate Hb|]
+  end.
+  destruct (existsb (str_eqb name) gfx_num_names) eqn:X1; [discriminate|].
+  destruct (existsb (str_eqb name) gfx_xy_names) eqn:X2; [discriminate|].
+  destruct (existsb (str_eqb name) gfx_str_names) eqn:X3; [discriminate|].
+  apply not_true_is_false. intros Hm. apply mem_str_In in Hm. simpl in Hm.
+  repeat destruct Hm as [<-|Hm]; try contradiction;
+    repeat match goal with
+    | E : name_is _ _ = false |- _ => vm_compute in E; try discriminate E; clear E
+    | E : existsb _ _ = false |- _ => vm_compute in E; try discriminate E; clear E
+    end.
+Qed.
+
+Lemma s1_name_facts name F : mem_str name s1_builtins = true ->
+  str_eqb name n_test = false /\ lookup_sig F name = builtin_sig name /\ builtin_sig name <> None.
+Proof.
+  intros Hm. apply mem_str_In in Hm. simpl in Hm. unfold lookup_sig.
+  repeat destruct Hm as [<-|Hm]; try contradiction; (split; [reflexivity|split; [reflexivity|discriminate]]).
+Qed.
+
+(* ---------- the nine statements ---------- *)
+Definition exprs_post (S : sty) (G : tyenv) (e : env) (ts : list ty) : list loc -> state -> Prop :=
+  fun ls s' => exists S', ext S S' /\ inv S' G e s' /\ Forall2 (fun l t => sfind S' l = Some t) ls ts.
+
+Definition expr_sound (n : nat) : Prop := forall P e x G t S s,
+  ety (p_funcs P) G x = Some t -> s1_expr x = true -> genv_ok G -> inv S G e s ->
+  wp (eval_expr n P e x s) (epost S G e t).
+
+Definition exprs_sound (n : nat) : Prop := forall P e es G ts S s,
+  etys (p_funcs P) G es = Some ts -> s1_exprs es = true -> Forall (fun t => t <> TNone) ts ->
+  genv_ok G -> inv S G e s ->
+  wp (eval_exprs n P e es s) (exprs_post S G e ts).
+
+Definition call_sound (n : nat) : Prop := forall P e name args G sg ts S s,
+  lookup_sig (p_funcs P) name = Some sg -> etys (p_funcs P) G args = Some ts ->
+  sig_args_ok sg ts = true -> mem_str name s1_builtins = true -> s1_exprs args = true ->
+  genv_ok G -> inv S G e s ->
+  wp (eval_call n P e name args s) (bpost S G e (fs_ret sg)).
+
+Definition spost (S : sty) (G G' : tyenv) (e : env) : signal * env -> state -> Prop :=
+  fun r s' => exists S' G'', ext S S' /\ heap_ok S' (st_heap s') /\ grows G G'' /\
+     env_ok S' G'' (full (snd r) s') /\ List.length (snd r) = List.length e /\ (fst r = SigNone -> G'' = G').
+
+Definition stmt_sound (n : nat) : Prop := forall P ret il e st G G' S s,
+  wt_stmt (p_funcs P) ret il G st = Some G' -> s1_stmt st = true -> genv_ok G -> inv S G e s ->
+  wp (exec_stmt n P e st s) (spost S G G' e).
+
+Definition stmts_sound (n : nat) : Prop := forall P ret il e l G G' S s,
+  wt_stmts (p_funcs P) ret il G l = Some G' -> s1_stmts l = true -> genv_ok G -> inv S G e s ->
+  wp (exec_stmts n P e l s) (spost S G G' e).
+
+Definition block_sound (n : nat) : Prop := forall P ret il e l G G' S s,
+  wt_stmts (p_funcs P) ret il G l = Some G' -> s1_stmts l = true -> genv_ok G -> inv S G e s ->
+  wp (exec_block n P e l s) (spost S G G' e).
+
+Definition kpost {A} (S : sty) (G : tyenv) (e : env) : A * env -> state -> Prop :=
+  fun r s' => exists S', ext S S' /\ inv S' G (snd r) s' /\ List.length (snd r) = List.length e.
+
+Definition cond_sound (n : nat) : Prop := forall P ret il e c body G Gb S s,
+  ety (p_funcs P) (push G) c = Some TBool -> wt_stmts (p_funcs P) ret il (push G) body = Some Gb ->
+  s1_expr c = true -> s1_stmts body = true -> genv_ok G -> inv S G e s ->
+  wp (exec_cond n P e c body s) (kpost S G e).
+
+Definition while_sound (n : nat) : Prop := forall P ret e c body G Gb S s,
+  ety (p_funcs P) (push G) c = Some TBool -> wt_stmts (p_funcs P) ret true (push G) body = Some Gb ->
+  s1_expr c = true -> s1_stmts body = true -> genv_ok G -> inv S G e s ->
+  wp (exec_while n P e c body s) (kpost S G e).
+
+(* the loop variable (None: `for range ...`) and what the ranger yields *)
+Definition rg_ok (S : sty) (named : option ty) (rg : ranger) : Prop :=
+  match rg with
+  | RgStep _ _ _ => named = None \/ named = Some TNum
+  | RgArr a _ => (exists u, sfind S a = Some (TArr u) /\ (named = None \/ named = Some u))
+                 \/ sfind S a = Some TEmptyArr
+  | RgStr _ _ => named = None \/ named = Some TStr
+  | RgMap _ _ => False
+  end.
+
+Definition for_frame (named : option ty) (var : str) (fr0 : sframe) : Prop :=
+  match named with
+  | None => var = underscore /\ fr0 = []
+  | Some vt => binder_ok var = true /\ fr0 = [(var, vt)]
+  end.
+
+Definition for_sound (n : nat) : Prop := forall P ret e var rg body G fr0 named Gb S s,
+  wt_stmts (p_funcs P) ret true ((true, fr0) :: G) body = Some Gb -> s1_stmts body = true ->
+  genv_ok ((true, fr0) :: G) -> inv S ((true, fr0) :: G) e s ->
+  for_frame named var fr0 -> rg_ok S named rg ->
+  wp (exec_for n P e var rg body s) (kpost S ((true, fr0) :: G) e).
+
+Definition all_sound (n : nat) : Prop :=
+  expr_sound n /\ exprs_sound n /\ call_sound n /\ stmt_sound n /\ stmts_sound n /\ block_sound n /\
+  cond_sound n /\ while_sound n /\ for_sound n.
+
+Lemma tick_inv S G e s (Q : unit -> state -> Prop) :
+  inv S G e s -> (forall s', inv S G e s' -> Q tt s') -> wp (tick s) Q.
+Proof.
+  intros Hi HQ. eapply wp_mono; [apply tick_wp|]. cbv beta. intros [] s' [H1 H2].
+  apply HQ. eapply inv_same; eauto.
+Qed.
+
+Lemma epost_ret S G e t l s : inv S G e s -> sfind S l = Some t -> epost S G e t l s.
+Proof. intros. exists S; auto using ext_refl. Qed.
+
+Lemma assert_shape u t :
+  ty_s1in u = true -> ty_proper t = true -> ty_eqb (ty_shape u) (ty_shape t) = true -> u = t.
+Proof.
+  revert t; induction u; intros t Hu Ht H; destruct t; simpl in *; try discriminate; auto.
+  - f_equal; auto.
+  - destruct t; simpl in *; discriminate.
+Qed.
+
+(* ---------- binary operators ---------- *)
+Lemma bin_num_wp S0 S G e s op y z t :
+  ext S0 S -> inv S G e s -> bin_ty op TNum TNum = Some t -> op <> BEq -> op <> BNotEq ->
+  wp (bin_num op y z s) (epost S0 G e t).
+Proof.
+  intros E Hi Ht N1 N2.
+  destruct op; simpl in Ht; try congruence; inversion Ht; subst; simpl;
+    eapply alloc_epost; eauto; constructor.
+Qed.
+
+Lemma bin_str_wp S0 S G e s op y z t :
+  ext S0 S -> inv S G e s -> bin_ty op TStr TStr = Some t -> op <> BEq -> op <> BNotEq ->
+  wp (bin_str op y z s) (epost S0 G e t).
+Proof.
+  intros E Hi Ht N1 N2.
+  destruct op; simpl in Ht; try congruence; inversion Ht; subst; simpl;
+    eapply alloc_epost; eauto; constructor.
+Qed.
+
+Lemma bin_bool_wp S0 S G e s op y z t :
+  ext S0 S -> inv S G e s -> bin_ty op TBool TBool = Some t -> op <> BEq -> op <> BNotEq ->
+  wp (bin_bool op y z s) (epost S0 G e t).
+Proof.
+  intros E Hi Ht N1 N2.
+  destruct op; simpl in Ht; try congruence; inversion Ht; subst; simpl;
+    eapply alloc_epost; eauto; constructor.
+Qed.
+
+Lemma Forall_app_ty (S : sty) u a b :
+  Forall (fun l => sfind S l = Some u) a -> Forall (fun l => sfind S l = Some u) b ->
+  Forall (fun l => sfind S l = Some u) (a ++ b).
+Proof. intros; apply Forall_app; auto. Qed.
+
+Lemma Forall_concat_ty (S : sty) u parts :
+  Forall (Forall (fun l => sfind S l = Some u)) parts -> Forall (fun l => sfind S l = Some u) (List.concat parts).
+Proof. induction 1; simpl; auto using Forall_app_ty. Qed.
+
+(* array concatenation: both operands hold cells of type u (or are the untyped []) *)
+Lemma concat_wp S0 S G e s u xs ys :
+  ext S0 S -> inv S G e s -> ty_ok1 (TArr u) = true -> u <> TNone ->
+  Forall (fun l => sfind S l = Some u) xs -> Forall (fun l => sfind S l = Some u) ys ->
+  wp ((let* d := depth_fuel in
+       let* xs' := mapM (copy_or_ref d) xs in
+       let* ys' := mapM (copy_or_ref d) ys in
+       alloc (HArr (xs' ++ ys'))) s) (epost S0 G e (TArr u)).
+Proof.
+  intros E0 Hi Hok Hu Hx Hy. pose proof Hi as [Hh He].
+  unfold bindM at 1. unfold depth_fuel at 1.
+  wbind ltac:(eapply mapM_copy_wp; eauto). intros xs' s1 (S1 & E1 & Hh1 & Hg1 & Hx1).
+  wbind ltac:(eapply (mapM_copy_wp S1); eauto using Forall_ext_ty).
+  intros ys' s2 (S2 & E2 & Hh2 & Hg2 & Hy2).
+  eapply (alloc_epost S0 S2); [| |constructor; apply Forall_app_ty; eauto using Forall_ext_ty|auto].
+  - eauto using ext_trans.
+  - eapply inv_step; eauto using ext_trans. congruence.
+Qed.
+
+Lemma bin_arr_wp S0 S G e s op xs lb ta tb t :
+  ext S0 S -> inv S G e s -> bin_ty op ta tb = Some t -> op <> BEq -> op <> BNotEq ->
+  cell_ok S (HArr xs) ta -> sfind S lb = Some tb -> ty_ok1 t = true -> ty_s1in t = true ->
+  wp (bin_arr op xs lb s) (epost S0 G e t).
+Proof.
+  intros E0 Hi Ht N1 N2 Hxs Hlb Hok Hs1. pose proof Hi as [Hh He].
+  destruct op; try congruence;
+    try (inversion Hxs; subst; simpl in Ht; destruct tb; discriminate).
+  - (* + *)
+    cbn [bin_arr].
+    wbind ltac:(eapply load_wp; eauto). intros rv s1 [-> Hrv].
+    inversion Hxs; subst; simpl in Ht; destruct tb; try discriminate; inversion Hrv; subst.
+    + destruct (ty_eqb u tb) eqn:Eu; [|discriminate]. apply ty_eqb_eq in Eu; subst tb.
+      inversion Ht; subst. eapply concat_wp; eauto. simpl in Hs1. intros ->; discriminate.
+    + inversion Ht; subst. eapply concat_wp; eauto. simpl in Hs1. intros ->; discriminate.
+    + inversion Ht; subst. eapply concat_wp; eauto. simpl in Hs1. intros ->; discriminate.
+    + inversion Ht; subst. unfold bindM at 1. unfold depth_fuel at 1. cbn [mapM].
+      unfold bindM, ret. eapply alloc_epost; eauto; constructor.
+  - (* * *)
+    cbn [bin_arr].
+    inversion Hxs; subst; simpl in Ht; destruct tb; try discriminate. inversion Ht; subst.
+    wbind ltac:(eapply load_num_wp; eauto). intros f s1 ->.
+    destruct (go_int_exact f) as [n|]; [|exact I].
+    destruct (n <? 0); [exact I|].
+    match goal with |- context [if ?c then _ else _] => destruct c; [exact I|] end.
+    unfold bindM at 1. unfold depth_fuel at 1.
+    simpl in Hs1.
+    assert (Hd : (ty_depth u < value_depth)%nat).
+    { pose proof value_depth_big. apply ok1_small, ty_small_le in Hok. simpl in Hok. lia. }
+    wbind ltac:(eapply (mapM_wp (fun _ : unit => mapM (deep_copy value_depth) xs)
+                          (fun S _ => Forall (fun l => sfind S l = Some u) xs)
+                          (fun S _ b => Forall (fun l => sfind S l = Some u) b) (st_globals s))).
+    + intros S1 S2 _ E12 HF. eauto using Forall_ext_ty.
+    + intros S1 S2 _ b E12 HF. eauto using Forall_ext_ty.
+    + intros S1 s1 _ Hh1 Hg1 HF.
+      eapply wp_mono.
+      * eapply (mapM_wp (deep_copy value_depth) (fun S a => sfind S a = Some u)
+                  (fun S a b => sfind S b = Some u) (st_globals s)); eauto.
+        intros S2 s2 a Hh2 Hg2 Ha. rewrite <- Hg2. eapply deep_copy_wp; eauto.
+      * cbv beta. intros b s2 (S2 & E2 & Hh2 & Hg2 & HF2). hdone S2. eapply Forall2_out; eauto.
+    + exact Hh.
+    + reflexivity.
+    + clear -H0. induction (repeat tt (Z.to_nat n)); constructor; auto.
+    + intros parts s2 (S2 & E2 & Hh2 & Hg2 & HF2).
+      eapply (alloc_epost S0 S2); eauto using ext_trans.
+      * eapply inv_step; eauto.
+      * constructor. apply Forall_concat_ty. clear -HF2. induction HF2; constructor; auto.
+Qed.
+
+(* ---------- expressions ---------- *)
+Lemma wp_depth_fuel {B} (k : nat -> M B) s Q : wp (k value_depth s) Q -> wp (bindM depth_fuel k s) Q.
+Proof. exact (fun H => H). Qed.
+
+Lemma bin_ty_compat op a b t : (op = BEq \/ op = BNotEq) -> bin_ty op a b = Some t -> ty_compat a b = true /\ t = TBool.
+Proof.
+  intros [->| ->]; simpl; destruct (ty_compat a b); try discriminate; intros H; inversion H; auto.
+Qed.
+
+Lemma ebin_tail S0 S G e s op la lb ta tb t :
+  ext S0 S -> inv S G e s -> sfind S la = Some ta -> sfind S lb = Some tb ->
+  bin_ty op ta tb = Some t -> ty_ok1 t = true -> ty_s1in t = true ->
+  wp ((match op with
+       | BEq => let* d := depth_fuel in let* r := equals d la lb in alloc (HBool r)
+       | BNotEq => let* d := depth_fuel in let* r := equals d la lb in alloc (HBool (negb r))
+       | _ =>
+           let* va := load la in
+           match va with
+           | HNum y => let* z := load_num lb in bin_num op y z
+           | HStr y => let* z := load_str lb in bin_str op y z
+           | HBool y => let* z := load_bool lb in bin_bool op y z
+           | HArr xs => bin_arr op xs lb
+           | _ => internal "unknown operation (binary)"
+           end
+       end) s) (epost S0 G e t).
+Proof.
+  intros E0 Hi Hla Hlb Hbin Hok Hs1. pose proof Hi as [Hh He].
+  assert (EQ : forall b : bool, (op = BEq \/ op = BNotEq) ->
+            wp ((let* d := depth_fuel in let* r := equals d la lb in alloc (HBool (if b then negb r else r))) s)
+               (epost S0 G e t)).
+  { intros b Hop. destruct (bin_ty_compat _ _ _ _ Hop Hbin) as [Hc ->].
+    apply wp_depth_fuel.
+    wbind ltac:(eapply equals_wp; eauto using deep_ok_value). intros r s1 ->.
+    eapply alloc_epost; eauto. constructor. }
+  assert (OTHER : op <> BEq -> op <> BNotEq ->
+     wp ((let* va := load la in
+           match va with
+           | HNum y => let* z := load_num lb in bin_num op y z
+           | HStr y => let* z := load_str lb in bin_str op y z
+           | HBool y => let* z := load_bool lb in bin_bool op y z
+           | HArr xs => bin_arr op xs lb
+           | _ => internal "unknown operation (binary)"
+           end) s) (epost S0 G e t)).
+  { intros N1 N2.
+    wbind ltac:(eapply load_wp; eauto). intros va s1 [-> Hva].
+    inversion Hva; subst.
+    - assert (tb = TNum) by (destruct op, tb; simpl in Hbin; congruence). subst.
+      wbind ltac:(eapply load_num_wp; eauto). intros z s1 ->. eapply bin_num_wp; eauto.
+    - assert (tb = TStr) by (destruct op, tb; simpl in Hbin; congruence). subst.
+      wbind ltac:(eapply load_str_wp; eauto). intros z s1 ->. eapply bin_str_wp; eauto.
+    - assert (tb = TBool) by (destruct op, tb; simpl in Hbin; congruence). subst.
+      wbind ltac:(eapply load_bool_wp; eauto). intros z s1 ->. eapply bin_bool_wp; eauto.
+    - destruct op; simpl in Hbin; congruence.
+    - eapply bin_arr_wp; eauto.
+    - eapply bin_arr_wp; eauto.
+    - destruct op; simpl in Hbin; congruence. }
+  destruct op; try (apply OTHER; discriminate).
+  - exact (EQ false (or_introl eq_refl)).
+  - exact (EQ true (or_intror eq_refl)).
+Qed.
+
+Lemma nth_error_lt_some {A} (l : list A) k : (k < List.length l)%nat -> exists x, nth_error l k = Some x.
+Proof. intros H. destruct (nth_error l k) eqn:E; eauto. apply nth_error_None in E. lia. Qed.
+
+Section ExprStep.
+  Context (f : nat) (IHe : expr_sound f) (IHes : exprs_sound f) (IHc : call_sound f).
+
+  Lemma eval_opt_wp P e o G S s :
+    etyo (p_funcs P) G o = true -> s1_opt o = true -> genv_ok G -> inv S G e s ->
+    wp ((match o with
+         | Some y => let* l := eval_expr f P e y in ret (Some l)
+         | None => ret None
+         end) s)
+       (fun r s' => exists S', ext S S' /\ inv S' G e s' /\ forall l, r = Some l -> sfind S' l = Some TNum).
+  Proof.
+    intros Ht Hs HG Hi. destruct o as [y|].
+    - simpl in Ht, Hs. apply opt_ty_eqb_eq in Ht.
+      wbind ltac:(eapply IHe; eauto). intros l s1 (S1 & E1 & Hi1 & Hl1).
+      apply wp_ret. exists S1; repeat split; auto; try apply Hi1. intros l0 H; inversion H; subst; auto.
+    - apply wp_ret. exists S; repeat split; auto using ext_refl; try apply Hi. discriminate.
+  Qed.
+
+  Lemma expr_step : expr_sound (S f).
+  Proof.
+    intros P e x G t S s Hty Hs1 HG Hi.
+    destruct x; cbn [eval_expr];
+      (apply wp_bind; eapply tick_inv; [exact Hi|]; clear s Hi; intros s Hi); pose proof Hi as [Hh He].
+    - (* ENum *) inversion Hty; subst. eapply alloc_epost; [apply ext_refl|exact Hi|constructor|reflexivity].
+    - inversion Hty; subst. eapply alloc_epost; [apply ext_refl|exact Hi|constructor|reflexivity].
+    - inversion Hty; subst. eapply alloc_epost; [apply ext_refl|exact Hi|constructor|reflexivity].
+    - (* EVar *)
+      cbn [ety] in Hty.
+      destruct (negb (str_eqb name underscore) && opt_ty_eqb (slookup name G) t0 && ty_ann t0) eqn:E; [|discriminate].
+      inversion Hty; subst. apply andb_true_iff in E as [E E3]. apply andb_true_iff in E as [E1 E2].
+      apply negb_true_iff in E1. apply opt_ty_eqb_eq in E2.
+      apply wp_bind. rewrite (lookup_full _ _ _ E1). simpl.
+      destruct (env_get_sound _ _ _ _ _ He E2) as (l & Hl & Ht). rewrite Hl.
+      apply wp_ret. apply epost_ret; auto.
+    - (* EAny *)
+      cbn [ety] in Hty. cbn [s1_expr] in Hs1. apply andb_true_iff in Hs1 as [Hs1a Hs1b].
+      destruct (opt_ty_eqb (ety (p_funcs P) G x) t0 && negb (is_any t0) && ty_ann t0) eqn:E; [|discriminate].
+      inversion Hty; subst. apply andb_true_iff in E as [E E3]. apply andb_true_iff in E as [E1 E2].
+      apply opt_ty_eqb_eq in E1.
+      wbind ltac:(eapply IHe; eauto). intros l s1 (S1 & E1' & Hi1 & Hl1).
+      wbind ltac:(eapply load_wp; eauto; apply Hi1). intros v s2 [-> Hc].
+      destruct v; try (eapply alloc_epost; [exact E1'|exact Hi1|constructor; auto|reflexivity]).
+      inversion Hc; subst. discriminate.
+    - (* EArr *)
+      rewrite ety_EArr in Hty. rewrite s1_expr_EArr in Hs1. apply andb_true_iff in Hs1 as [Hs1a Hs1b].
+      destruct es as [|x es].
+      + wbind ltac:(eapply (IHes P e [] G []); eauto; reflexivity). intros ls s1 (S1 & E1 & Hi1 & HF).
+        inversion HF; subst.
+        destruct t0; try discriminate.
+        * destruct (ty_ann (TArr t0)) eqn:Ea; inversion Hty; subst.
+          eapply alloc_epost; eauto using ty_ann_s1in_ok1. constructor; constructor.
+        * inversion Hty; subst. eapply alloc_epost; eauto. constructor.
+      + destruct t0; try discriminate.
+        destruct (etys (p_funcs P) G (x :: es)) as [ts|] eqn:Ets; [|discriminate].
+        destruct (forallb (ty_eqb t0) ts && ty_ann (TArr t0)) eqn:Ea; inversion Hty; subst.
+        apply andb_true_iff in Ea as [Ea1 Ea2].
+        assert (Hnn : Forall (fun t => t <> TNone) ts).
+        { apply ty_ann_value in Ea2. simpl in Ea2. clear -Ea1 Ea2.
+          induction ts; constructor; simpl in Ea1; apply andb_true_iff in Ea1 as [H1 H2]; auto.
+          apply ty_eqb_eq in H1; subst. auto using ty_value_not_none. }
+        wbind ltac:(eapply IHes; eauto). intros ls s1 (S1 & E1 & Hi1 & HF).
+        eapply alloc_epost; eauto using ty_ann_s1in_ok1.
+        constructor. eapply Forall2_same_ty; eauto.
+    - (* EMap *) discriminate.
+    - (* ECall *)
+      rewrite ety_ECall in Hty. rewrite s1_expr_ECall in Hs1. apply andb_true_iff in Hs1 as [Hs1a Hs1b].
+      destruct (lookup_sig (p_funcs P) name) as [sg|] eqn:Esg; [|discriminate].
+      destruct (etys (p_funcs P) G args) as [ts|] eqn:Ets; [|discriminate].
+      destruct (sig_args_ok sg ts && ty_eqb (fs_ret sg) t0) eqn:Ea; inversion Hty; subst.
+      apply andb_true_iff in Ea as [Ea1 Ea2]. apply ty_eqb_eq in Ea2.
+      wbind ltac:(eapply IHc; eauto). intros r s1 (S1 & l & -> & E1 & Hi1 & Hl1).
+      apply wp_ret. exists S1; repeat split; auto; try apply Hi1. congruence.
+    - (* EUn *)
+      cbn [ety] in Hty. cbn [s1_expr] in Hs1.
+      destruct (ety (p_funcs P) G x) as [tx|] eqn:Ex; [|destruct op; discriminate].
+      wbind ltac:(eapply IHe; eauto). intros l s1 (S1 & E1 & Hi1 & Hl1).
+      wbind ltac:(eapply load_wp; eauto; apply Hi1). intros v s2 [-> Hc].
+      destruct op; destruct tx; try discriminate; inversion Hty; subst; inversion Hc; subst;
+        (eapply alloc_epost; [exact E1|exact Hi1|constructor|reflexivity]).
+    - (* EBin *)
+      cbn [ety] in Hty. cbn [s1_expr] in Hs1.
+      apply andb_true_iff in Hs1 as [Hs1 Hs1c]. apply andb_true_iff in Hs1 as [Hs1a Hs1b].
+      destruct (ety (p_funcs P) G x1) as [ta|] eqn:Ea; [|discriminate].
+      destruct (ety (p_funcs P) G x2) as [tb|] eqn:Eb; [|discriminate].
+      destruct (opt_ty_eqb (bin_ty op ta tb) t0 && ty_ann t0) eqn:Ec; inversion Hty; subst.
+      apply andb_true_iff in Ec as [Ec1 Ec2]. apply opt_ty_eqb_eq in Ec1.
+      pose proof (ty_ann_s1in_ok1 _ Ec2 Hs1a) as Hok.
+      wbind ltac:(eapply IHe; eauto). intros la s1 (S1 & E1 & Hi1 & Hla).
+      wbind ltac:(eapply load_wp; eauto; apply Hi1). intros va0 s2 [-> Hva0].
+      match goal with |- context [if ?c then ret la else _] => destruct c eqn:Esh end.
+      + (* short circuit: the left operand is a bool *)
+        assert (ta = TBool /\ tb = TBool) as [-> ->].
+        { destruct op; try discriminate; destruct va0; try discriminate; inversion Hva0; subst;
+            destruct tb; simpl in Ec1; try discriminate; auto. }
+        apply wp_bind. apply wp_ret.
+        eapply (ebin_tail S S1); eauto.
+      + wbind ltac:(eapply (IHe P e x2 G tb S1); eauto). intros lb s2 (S2 & E2 & Hi2 & Hlb).
+        eapply (ebin_tail S S2); eauto using ext_trans.
+    - (* EIndex *)
+      cbn [ety] in Hty. cbn [s1_expr] in Hs1.
+      apply andb_true_iff in Hs1 as [Hs1 Hs1c]. apply andb_true_iff in Hs1 as [Hs1a Hs1b].
+      destruct (ety (p_funcs P) G x1) as [ta|] eqn:Ea; [|discriminate].
+      destruct (ety (p_funcs P) G x2) as [ti|] eqn:Ei; [|destruct ta; discriminate].
+      wbind ltac:(eapply IHe; eauto). intros la s1 (S1 & E1 & Hi1 & Hla).
+      wbind ltac:(eapply (IHe P e x2 G ti S1); eauto). intros li s2 (S2 & E2 & Hi2 & Hli).
+      pose proof Hi2 as [Hh2 He2].
+      wbind ltac:(eapply load_wp; eauto). intros va s3 [-> Hva].
+      destruct ta; try discriminate; destruct ti; try discriminate.
+      + (* string *)
+        destruct (ty_eqb TStr t0) eqn:Et; inversion Hty; subst. apply ty_eqb_eq in Et; subst t.
+        inversion Hva; subst.
+        wbind ltac:(eapply load_num_wp; eauto). intros fi s3 ->.
+        apply wp_bind. apply lift_norm_wp. intros k Hk. apply normalize_index_lt in Hk.
+        destruct (nth_error_lt_some _ _ Hk) as (c & ->).
+        eapply (alloc_epost S S2); eauto using ext_trans. constructor.
+      + (* array *)
+        destruct (ty_eqb ta t0 && ty_ann t0) eqn:Et; inversion Hty; subst.
+        apply andb_true_iff in Et as [Et1 Et2]. apply ty_eqb_eq in Et1; subst ta.
+        inversion Hva; subst.
+        wbind ltac:(eapply load_num_wp; eauto). intros fi s3 ->.
+        apply wp_bind. apply lift_norm_wp. intros k Hk. apply normalize_index_lt in Hk.
+        destruct (nth_error_lt_some _ _ Hk) as (c & Hc). rewrite Hc.
+        apply wp_ret. exists S2; split; [eauto using ext_trans|split; [exact Hi2|]].
+        match goal with HF : Forall _ els |- _ => rewrite Forall_forall in HF; apply HF end.
+        eapply nth_error_In; eauto.
+      + (* map: not a Stage-1 type *)
+        pose proof (ho_tys _ _ Hh2 _ _ (E2 _ _ Hla)) as Hbad. discriminate.
+    - (* ESlice *)
+      rewrite ety_ESlice in Hty. rewrite s1_expr_ESlice in Hs1.
+      apply andb_true_iff in Hs1 as [Hs1 Hs1d]. apply andb_true_iff in Hs1 as [Hs1 Hs1c].
+      apply andb_true_iff in Hs1 as [Hs1a Hs1b].
+      destruct (ety (p_funcs P) G x) as [ta|] eqn:Ea; [|discriminate].
+      assert (Hc : ty_eqb ta t0 && etyo (p_funcs P) G lo && etyo (p_funcs P) G hi = true /\ t = t0
+                   /\ (ta = TStr \/ exists u, ta = TArr u)).
+      { destruct ta; try discriminate;
+          (destruct (ty_eqb _ t0 && etyo (p_funcs P) G lo && etyo (p_funcs P) G hi); inversion Hty; eauto). }
+      destruct Hc as (Hc & -> & Hta). apply andb_true_iff in Hc as [Hc Hc3]. apply andb_true_iff in Hc as [Hc1 Hc2].
+      apply ty_eqb_eq in Hc1; subst ta.
+      wbind ltac:(eapply IHe; eauto). intros la s1 (S1 & E1 & Hi1 & Hla).
+      wbind ltac:(eapply eval_opt_wp; eauto). intros llo s2 (S2 & E2 & Hi2 & Hlo).
+      wbind ltac:(eapply eval_opt_wp; eauto). intros lhi s3 (S3 & E3 & Hi3 & Hhi).
+      pose proof Hi3 as [Hh3 He3].
+      wbind ltac:(eapply load_wp; [exact Hh3|]; eauto). intros va s4 [-> Hva].
+      destruct Hta as [->|(u & ->)]; inversion Hva; subst.
+      + wbind ltac:(eapply slice_bounds_wp; eauto). intros [a b] s4 ->.
+        eapply (alloc_epost S S3); eauto using ext_trans. constructor.
+      + wbind ltac:(eapply slice_bounds_wp; eauto). intros [a b] s4 ->.
+        apply wp_depth_fuel. simpl in Hs1a.
+        wbind ltac:(eapply mapM_copy_wp with (u := u); eauto using Forall_firstn, Forall_skipn, ty_s1in_not_none).
+        intros els' s5 (S5 & E5 & Hh5 & Hg5 & HF5).
+        eapply (alloc_epost S S5); eauto using ext_trans.
+        * eapply inv_step; eauto.
+        * constructor; auto.
+        * eapply ho_tys; [exact Hh3|]. eauto.
+    - (* EDot *) discriminate.
+    - (* EGroup *) cbn [ety] in Hty. cbn [s1_expr] in Hs1. eapply IHe; eauto.
+    - (* EAssert *)
+      cbn [ety] in Hty. cbn [s1_expr] in Hs1. apply andb_true_iff in Hs1 as [Hs1a Hs1b].
+      destruct (ety (p_funcs P) G x) as [ta|] eqn:Ea; [|discriminate].
+      destruct ta; try discriminate.
+      destruct (negb (is_any t0) && ty_decl t0) eqn:Ec; inversion Hty; subst.
+      apply andb_true_iff in Ec as [Ec1 Ec2]. unfold ty_decl in Ec2. apply andb_true_iff in Ec2 as [Ec2 Ec3].
+      wbind ltac:(eapply IHe; eauto). intros la s1 (S1 & E1 & Hi1 & Hla).
+      wbind ltac:(eapply load_wp; eauto; apply Hi1). intros va s2 [-> Hva]. inversion Hva; subst.
+      destruct (ty_eqb (ty_shape u) (ty_shape t)) eqn:Esh; [|exact I].
+      apply assert_shape in Esh; auto. subst u.
+      apply wp_ret. exists S1; auto.
+  Qed.
+End ExprStep.
